@@ -98,6 +98,9 @@ func arityInst[T any](head string, n int, o fp.Ord[T], mk func(c []any) T, split
 
 var maxDecide = 12
 
+// operands of an arity block sharing a prefix longer than this get the reduced check
+const liteFrom = 14
+
 func buildCatalogue() (grammar *catalogue, extra *catalogue, ar *arities) {
 	hn := baseHNil()
 	grammar = &catalogue{hnil: hn}
@@ -163,7 +166,20 @@ func lawScenario(r *mc.Registry, name string, nodes []*node) {
 		b := x.Choose(len(n.dom), "b")
 		c := x.Choose(n.cSize, "c")
 		x.Tag(n.name)
-		law, msg := n.law(a, b, c)
+		var law, msg string
+		if n.commonPrefix != nil && (n.commonPrefix(a, b) > liteFrom || n.commonPrefix(b, c) > liteFrom || n.commonPrefix(a, c) > liteFrom) {
+			// thorough tier, operands sharing a prefix longer than liteFrom: one call of the
+			// library's Compare costs about p*2^p steps, so only the pair (a,b) is decided, with
+			// three calls, once (for the first third operand)
+			if c != 0 || n.commonPrefix(a, b) <= liteFrom {
+				x.Tag("arity: execution skipped (a pair of operands shares a prefix > 14; the pair itself is decided in another execution)")
+				return
+			}
+			x.Tag("arity: reduced check (Less both ways + Compare) for operands sharing a prefix > 14")
+			law, msg = n.lawLite(a, b)
+		} else {
+			law, msg = n.law(a, b, c)
+		}
 		x.Logf("ord.%s on a=%s b=%s c=%s: %s", n.name, n.show(n.dom[a]), n.show(n.dom[b]), n.show(n.dom[c]), orOK(law))
 		if law != "" {
 			cu := n.culprit()
@@ -172,6 +188,11 @@ func lawScenario(r *mc.Registry, name string, nodes []*node) {
 				via = fmt.Sprintf(" (attributed to the component instance ord.%s, which violates %q on its own domain)", cu.name, cu.selfcheck())
 			}
 			x.Fail("ord."+cu.head+"/"+law, "%s%s", msg, via)
+		}
+		if n.commonPrefix != nil && n.commonPrefix(a, b) > liteFrom {
+			x.Observe(n.name, "lite", a, b)
+			x.NonTrivial()
+			return
 		}
 		p := n.pattern(a, b, c)
 		x.Observe(n.name, p)
@@ -368,7 +389,7 @@ func sortScenario(r *mc.Registry, maxLen int) {
 
 func main() {
 	mc.Main("C10", func(r *mc.Registry) {
-		r.Rule = "grammar/arity: execution = (Ord instance expression, a, b, c) over the whole value domain of the instance's type (all triples; the arity blocks take c from 3 values and a, b from all values: base, alternative representation, all-different, and differs-at-position-k-only for every k <= 12 in the quick tier and every k in the thorough tier); each execution calls Less, Eqv, Compare, LessEq, Min, Max of the library's instance and checks trichotomy, transitivity, consistency and the constructor's structural demand; non-trivial = three different domain elements; distinct outcome = (instance, order pattern of the triple). sort: execution = (container, Ord, input sequence) for ALL sequences up to the length bound over 3 keys x 2 payloads; Sort must return a permutation ordered by the reference comparison, Min/Max any least/greatest element or None for empty; non-trivial = the input has an inversion"
+		r.Rule = "grammar/arity: execution = (Ord instance expression, a, b, c) over the whole value domain of the instance's type (all triples; the arity blocks take c from 3 values and a, b from all values: base, alternative representation, all-different, and differs-at-position-k-only for every k <= 12 in the quick tier and every k in the thorough tier, where pairs sharing a prefix longer than 14 get a reduced check: Less both ways and Compare against the lexicographic demand); each execution calls Less, Eqv, Compare, LessEq, Min, Max of the library's instance and checks trichotomy, transitivity, consistency and the constructor's structural demand; non-trivial = three different domain elements; distinct outcome = (instance, order pattern of the triple). sort: execution = (container, Ord, input sequence) for ALL sequences up to the length bound over 3 keys x 2 payloads; Sort must return a permutation ordered by the reference comparison, Min/Max any least/greatest element or None for empty; non-trivial = the input has an inversion"
 		r.Assumptions = []string{
 			"NaN is excluded from the float domains",
 			"which of None/Some and nil/non-nil sorts first is not fixed by the property: only that they differ, and the order laws, are demanded",
@@ -429,7 +450,7 @@ func main() {
 			"whether Sort leaves its input unchanged (property C04)",
 			"sequences longer than the length bound",
 			"quick tier only: operands of TupleN/HCons^n whose first difference is at a position > 12 (the library's Compare needs about p*2^p steps for a common prefix of length p; see FINDINGS.md, observation O1); the thorough tier decides every position",
-			"triples (rather than pairs plus 3 third operands) for the arity blocks, for the same reason",
+			"triples (rather than pairs plus 3 third operands) for the arity blocks, and the full law set (LessEq, Min, Max, transitivity) for tuple operands that share a prefix longer than 14, for the same reason",
 		}
 	})
 }
